@@ -68,6 +68,33 @@ RECURSIVE Flat(_, _)
 Flat(dims, c) == IF Len(dims) = 0 THEN 0
                  ELSE Flat(Front(dims), Front(c)) * Last(dims) + Last(c)
 
+\* ---- ragged-right indexers (orange/univ/detail/RaggedRightIndexer.hh) ----------
+\* offsets are the running sums of the row sizes; flat index k lies in the unique row i
+\* (0-based) with offsets[i+1] <= k < offsets[i+2] (1-based TLA+ indexing)
+OffsetsOf(sizes) == [i \in 1..(Len(sizes) + 1) |-> FoldLeft(LAMBDA a, b : a + b, 0, SubSeq(sizes, 1, i - 1))]
+RaggedCoords(offsets, k) ==
+  LET i == CHOOSE j \in 1..(Len(offsets) - 1) : offsets[j] <= k /\ k < offsets[j + 1]
+  IN <<i - 1, k - offsets[i]>>
+
+\* ---- spans ---------------------------------------------------------------------
+SpanData(n) == [i \in 1..n |-> 9 + i]                    \* the harness fills 10, 11, ...
+SubSpan(d, off, cnt) == SubSeq(d, off + 1, off + cnt)    \* 0-based offset
+
+\* ---- bilinear interpolation on a 2-D grid (exact integer arithmetic) --------------
+\* knots are integers, queries and fractions are in quarter units (x4 = 4 x); the result
+\* is compared as r16 * Dx * Dy = 16 * numerator, so nothing is ever rounded
+TwodBin(knots, q4) == Cardinality({i \in DOMAIN knots : 4 * knots[i] <= q4}) - 1
+TwodOK(xs, ys, v, q) ==
+  LET ix == TwodBin(xs, q.x4) + 1   iy == TwodBin(ys, q.y4) + 1       \* 1-based lower knot
+      Dx == 4 * (xs[ix + 1] - xs[ix])   Dy == 4 * (ys[iy + 1] - ys[iy])
+      nx == q.x4 - 4 * xs[ix]           ny == q.y4 - 4 * ys[iy]
+      num == (Dx - nx) * ((Dy - ny) * v[ix][iy] + ny * v[ix][iy + 1])
+             + nx * ((Dy - ny) * v[ix + 1][iy] + ny * v[ix + 1][iy + 1])
+  IN /\ q.exact /\ q.same /\ q.xfexact
+     /\ q.xi = ix - 1
+     /\ q.xf4 * Dx = 4 * nx
+     /\ q.r16 * Dx * Dy = 16 * num
+
 \* ---- grids on ranks ---------------------------------------------------------
 \* the bin b (0-based) with knots[b+1] <= v < knots[b+2] in 1-based TLA+ indexing
 GridBin(knots, v) == Cardinality({i \in DOMAIN knots : knots[i] <= v}) - 1
